@@ -957,21 +957,59 @@ impl Storage {
     ///
     /// N.B. The specified block will be removed.
     pub fn rollback_to_block(&self, to_number: BlockNumber) {
-        self.rollback_to_block_with_filtered_number(to_number, to_number)
+        self.rollback(to_number, to_number, &[])
     }
 
-    /// Rollback filtered block data to specified block number, and record `filtered_number` as
-    /// the block number of the scripts which are rolled back.
+    /// Handles a fork after the block `fork_number` with a single write batch: the matched
+    /// blocks which start after the fork are removed, and the filtered block data are rolled
+    /// back to the block after the last remaining matched blocks (or after the fork block).
     ///
-    /// N.B. The specified block will be removed, so the scripts are filtered up to its parent
-    /// only: a caller which goes on syncing has to record `to_number - 1`.
-    pub fn rollback_to_block_with_filtered_number(
+    /// N.B. An interrupted fork handling must not leave the matched blocks removed but the
+    /// filtered block number unchanged: if the old chain wins again, those blocks are lost.
+    pub fn rollback_after_fork(&self, fork_number: BlockNumber) {
+        let key_prefix = Key::Meta(MATCHED_FILTER_BLOCKS_KEY).into_vec();
+        let mode = IteratorMode::From(key_prefix.as_ref(), Direction::Forward);
+        let mut removed = Vec::new();
+        let mut last_kept = None;
+        for (key, _) in self
+            .db
+            .iterator(mode)
+            .take_while(|(key, _value)| key.starts_with(&key_prefix))
+        {
+            let start_number = u64::from_be_bytes(
+                key[key_prefix.len()..]
+                    .try_into()
+                    .expect("stored matched blocks start number"),
+            );
+            if start_number > fork_number {
+                log::debug!("remove matched blocks start from: {}", start_number);
+                removed.push(start_number);
+            } else {
+                last_kept = Some(start_number);
+            }
+        }
+        let rollback_to = last_kept.unwrap_or(fork_number) + 1;
+        log::info!("rollback to block#{}", rollback_to);
+        // the block `rollback_to` is removed: the scripts are filtered up to its parent
+        self.rollback(rollback_to, rollback_to - 1, &removed)
+    }
+
+    // Rollback filtered block data to specified block number, record `filtered_number` as the
+    // block number of the scripts which are rolled back, and remove the given matched blocks:
+    // all in one write batch.
+    fn rollback(
         &self,
         to_number: BlockNumber,
         filtered_number: BlockNumber,
+        removed_matched_blocks: &[u64],
     ) {
         let scripts = self.get_filter_scripts();
         let mut batch = self.batch();
+        for start_number in removed_matched_blocks {
+            let mut key = Key::Meta(MATCHED_FILTER_BLOCKS_KEY).into_vec();
+            key.extend(start_number.to_be_bytes());
+            batch.delete(key).expect("batch delete should be ok");
+        }
 
         for ss in scripts {
             if ss.block_number >= to_number {
